@@ -143,7 +143,7 @@ Proof.
   intros X H. pose proof (ex_inv _ X) as I.
   pose proof (proj1 (create_from_coin_ok s d s' I H)) as I'.
   destruct (create_from_coin_ok s d s' I H) as [_ [Hk [t Hr]]].
-  unfold create_coin_core, bind, guard in H.
+  unfold create_coin_core, create_coin_gen, bind, guard in H.
   destruct (negb (is_some (find_den s d)) && meta s d) eqn:G1; [|discriminate].
   destruct (negb (is_some (find_tok s (next_tok s)))) eqn:G2; [|discriminate].
   apply andb_true_iff in G1 as [G1 _]. apply negb_true_iff in G1.
@@ -193,17 +193,17 @@ Proof.
   pose proof (proj1 (exec_ok s o s' I H)) as I'.
   destruct o; simpl in H, G.
   - (* Fund *)
-    destruct d as [n|t]; [|discriminate]. decode.
+    destruct (is_coin d) eqn:Hd; [|discriminate]. decode.
     apply bank_mint_spec in H as [F [X0 [B [S [Eb Es]]]]].
     apply (exact_frame s s' X I' F).
     + intros m Hm. unfold slack. rewrite B, S, Eb, Es. rewrite (proj2 (Nat.eqb_neq Module a)) by congruence.
       destruct (m_coin m) eqn:Hc.
       * unfold ind. split_ifs; lia.
-      * rewrite (inv_erc_den _ I m Hm Hc). simpl. unfold ind. lia.
+      * rewrite (inv_erc_den _ I m Hm Hc). rewrite (erc_eqb_coin _ _ Hd). unfold ind. lia.
     + intros t _. rewrite Eb. reflexivity.
-    + intros d _. rewrite B. rewrite (proj2 (Nat.eqb_neq Module a)) by congruence. unfold ind. split_ifs; lia.
+    + intros d0 _. rewrite B. rewrite (proj2 (Nat.eqb_neq Module a)) by congruence. unfold ind. split_ifs; lia.
   - (* SetMeta *)
-    destruct d; [|discriminate]. inversion H; subst s'.
+    destruct (is_coin d); [|discriminate]. inversion H; subst s'.
     constructor; simpl; try apply X. exact I'.
   - (* Deploy *)
     unfold bind, guard in H. destruct (negb (Nat.eqb owner Module) && (0 <=? x)) eqn:G1; [|discriminate].
@@ -291,31 +291,31 @@ Proof.
     + intros d0 _. rewrite B. reflexivity.
   - discriminate.
   - (* TfCreate *)
-    destruct d; [|discriminate]. unfold bind, guard in H.
-    destruct (negb (Nat.eqb creator Module) && negb (is_some (tfadmin s (DCoin n)))); [|discriminate].
+    destruct (is_coin d); [|discriminate]. unfold bind, guard in H.
+    destruct (negb (Nat.eqb creator Module) && negb (is_some (tfadmin s d))); [|discriminate].
     inversion H; subst s'. constructor; simpl; try apply X. exact I'.
   - (* TfMint *)
-    destruct d as [n|t]; [|discriminate]. unfold bind, guard in H.
-    destruct (is_admin s (DCoin n) sender && (0 <? x) && negb (blocked to)) eqn:G1; [|discriminate].
+    destruct (is_coin d) eqn:Hd; [|discriminate]. unfold bind, guard in H.
+    destruct (is_admin s d sender && (0 <? x) && negb (blocked to)) eqn:G1; [|discriminate].
     unfold blocked in G1. decode.
     apply bank_mint_spec in H as [F [X0 [B [S [Eb Es]]]]].
     assert (Bm : forall d0, bank s' Module d0 = bank s Module d0).
     { intro d0. rewrite B. rewrite (proj2 (Nat.eqb_neq Module to)) by congruence. unfold ind. split_ifs; lia. }
     apply (exact_frame s s' X I' F).
     + intros m Hm. unfold slack. rewrite Bm, S, Eb, Es. destruct (m_coin m) eqn:Hc; [reflexivity|].
-      rewrite (inv_erc_den _ I m Hm Hc). simpl. unfold ind. lia.
+      rewrite (inv_erc_den _ I m Hm Hc). rewrite (erc_eqb_coin _ _ Hd). unfold ind. lia.
     + intros t0 _. rewrite Eb. reflexivity.
     + intros d0 _. apply Bm.
   - (* TfBurn *)
-    destruct d as [n|t]; [|discriminate]. unfold bind, guard in H.
-    destruct (is_admin s (DCoin n) sender && (0 <? x) && negb (blocked from)) eqn:G1; [|discriminate].
+    destruct (is_coin d) eqn:Hd; [|discriminate]. unfold bind, guard in H.
+    destruct (is_admin s d sender && (0 <? x) && negb (blocked from)) eqn:G1; [|discriminate].
     unfold blocked in G1. decode.
     apply bank_burn_spec in H as [F [X0 [B [S [Eb Es]]]]].
     assert (Bm : forall d0, bank s' Module d0 = bank s Module d0).
     { intro d0. rewrite B. rewrite (proj2 (Nat.eqb_neq Module from)) by congruence. unfold ind. split_ifs; lia. }
     apply (exact_frame s s' X I' F).
     + intros m Hm. unfold slack. rewrite Bm, S, Eb, Es. destruct (m_coin m) eqn:Hc; [reflexivity|].
-      rewrite (inv_erc_den _ I m Hm Hc). simpl. unfold ind. lia.
+      rewrite (inv_erc_den _ I m Hm Hc). rewrite (erc_eqb_coin _ _ Hd). unfold ind. lia.
     + intros t0 _. rewrite Eb. reflexivity.
     + intros d0 _. apply Bm.
   - (* TfChangeAdmin *)
